@@ -131,7 +131,7 @@ var recReviewed = map[string]string{
 	"(*compiler).parseExpression":           "structural recursion over the AST: bounded by the depth of the parsed tree",
 	"arraySortQuickSort":                    "quicksort partition recursion: each call works on a strictly smaller index range",
 	"builtinJSONParseWalk":                  "structural recursion over the value decoded by encoding/json: a finite tree",
-	"builtinJSONReviveWalk":                 "walks the tree JSON.parse has just built: finite and acyclic",
+	"builtinJSONReviveWalk":                 "walks the value JSON.parse built, but reads each child with [[Get]] after the reviver calls for its earlier siblings have run: a reviver can graft an ancestor below a later sibling, so only the depth test against the stack limit bounds it (REC-data-depth)",
 	"builtinJSONStringifyWalk":              "object-graph traversal guarded by the cycle stack (JSON-stringify: membership test dominates every push)",
 	"(*runtime).convertCallParameter":       "structural recursion over the parameter's Go type (slice / map / pointer element types) and the argument's nesting",
 	"(*runtime).toValue":                    "recursion on wrapped reflect values: bounded by the Go type depth",
@@ -510,7 +510,7 @@ var recKinds = map[string]string{
 	"(*cloner).object":                      "data",
 	"arraySortQuickSort":                    "size",
 	"builtinJSONParseWalk":                  "const",
-	"builtinJSONReviveWalk":                 "const",
+	"builtinJSONReviveWalk":                 "data",
 	"builtinJSONStringifyWalk":              "data",
 	"(*runtime).convertCallParameter":       "type",
 	"(*runtime).toValue":                    "type",
